@@ -481,7 +481,16 @@ def resume_attempt(ctx, rng, servers, stored, W, r):
             return
     if resumed:
         pump(p, p.c, p.csock)
-        close_pair(p, "clean", rng)
+        # a fatal error or abrupt end of the *resumed* connection invalidates
+        # the cached session just as one on the original connection does
+        how = rng.choice(["clean", "clean", "clean", "server_fatal",
+                          "client_fatal", "abrupt"])
+        close_pair(p, how, rng)
+        W["steps"].append(["closed_resumed", how])
+        if how != "clean":
+            ctx.count("resumed_connection_closed_" + how)
+            if mech == "id":
+                r.closed_how = how
     ctx.cell("cell", "%s|%s|%s|%s" % (mech, pair.VNAME[ver], reason0,
                                      "resumed" if resumed else (
                                          "failed" if not both else "full")))
